@@ -267,7 +267,14 @@ def make_dc(spec):
         else:
             f = dataclasses.field(default_factory=_factory(default), repr=rep)
         fields.append((fname, object, f))
+    import typing
+    if spec.get('classvar'):
+        # pseudo-fields: never constructor arguments, never to be printed - also when the class attribute was changed later
+        fields.append(('cv_counter', typing.ClassVar[int], dataclasses.field(default=0)))
+        fields.append(('cv_label', typing.ClassVar[str], 'label'))
     cls = dataclasses.make_dataclass(spec['name'], fields, frozen=spec['frozen'], slots=spec['slots'], kw_only=spec['kw_only'], eq=spec['eq'])
+    if spec.get('classvar') and not spec['slots']:
+        cls.cv_counter = 7
     cls.__module__ = __name__
     globals()[spec['name']] = cls
     return cls
@@ -313,7 +320,7 @@ def gen_spec(rng, lib, uid):
     if not kw_only:
         fields.sort(key=lambda f: f[1] != 'none')      # fields without default first
         fields = [('f%d' % i, k, d, r) for i, (_, k, d, r) in enumerate(fields)]
-    return {'lib': lib, 'name': ('DC%d' if lib == 'dc' else 'AT%d') % uid, 'fields': fields, 'frozen': rng.random() < 0.3,
+    return {'lib': lib, 'name': ('DC%d' if lib == 'dc' else 'AT%d') % uid, 'fields': fields, 'frozen': rng.random() < 0.3, 'classvar': lib == 'dc' and rng.random() < 0.4,
             'slots': rng.random() < 0.3, 'kw_only': kw_only, 'eq': rng.random() < 0.8}
 
 
